@@ -184,6 +184,7 @@ impl RuleConfiguration for InjectGlobalValue {
 
         let mut default_value_expected = None;
         let mut default_value_expression: Option<Expression> = None;
+        let mut has_environment_variable = false;
 
         self.original_properties = properties.clone();
 
@@ -207,6 +208,7 @@ impl RuleConfiguration for InjectGlobalValue {
                     }
                 }
                 "env" | "env_json" => {
+                    has_environment_variable = true;
                     let variable_name = value.expect_string(&key)?;
                     if let Some(os_value) = env::var_os(&variable_name) {
                         if let Some(value) = os_value.to_str() {
@@ -250,6 +252,15 @@ impl RuleConfiguration for InjectGlobalValue {
                 }
                 _ => return Err(RuleConfigurationError::UnexpectedProperty(key)),
             }
+        }
+
+        if default_value_expression.is_some() && !has_environment_variable {
+            // the default value replaces an environment variable that is not defined: without
+            // one it would never be used (and `nil` would be injected)
+            return Err(RuleConfigurationError::UnexpectedValue {
+                property: "default_value".to_owned(),
+                message: "a default value needs the field `env` or `env_json`".to_owned(),
+            });
         }
 
         if let Some(variable_name) = default_value_expected {
